@@ -1,14 +1,13 @@
 /* C03: strict DER signature codec of /repo against the X.690 specification functions of
- * contracts/spec_der.h, for every byte string of every length <= MAXLEN.  No oracle is used:
- * these units replay natively.
- *   h_read_len       secp256k1_der_read_len           (static helper)
- *   h_parse_integer  secp256k1_der_parse_integer      (static helper)
- *   h_parse_der      secp256k1_ecdsa_signature_parse_der  (API, every pointer NULL or object); the two calls of
+ * contracts/spec_der.h, for every byte string of every length <= MAXLEN.  No oracle is used.
+ *   h_read_len       secp256k1_der_read_len           (static helper, real code vs spec_der_len)
+ *   h_parse_integer  secp256k1_der_parse_integer      (static helper, real code vs spec_der_int; proves PI_POST)
+ *   h_parse_der      secp256k1_ecdsa_signature_parse_der (API, every pointer NULL or object); the two calls of
  *                    secp256k1_der_parse_integer are replaced by the contract proved in h_parse_integer
- *   h_parse_der_full the same statement with nothing replaced (thorough tier)
+ *   h_spec_compose   spec_der_sig = SEQUENCE framing over spec_der_int (the reading of h_parse_der's obligations)
  *   h_serialize_der  secp256k1_ecdsa_signature_serialize_der (API)
- *   h_rt_ser_parse   parse_der(serialize_der(r,s)) = (r,s)
- *   h_rt_parse_ser   serialize_der(parse_der(b)) = b whenever b is accepted with both integers in range */
+ *   h_rt_ser_parse   parse_der(serialize_der(r,s)) = (r,s), real code both ways
+ *   h_canon_int      X.690 lemma: an accepted in-range INTEGER element is the encoding of its value */
 #include "assumed.h"
 #include "spec_der.h"
 #include "der_contracts.h"
@@ -60,40 +59,10 @@ void h_parse_integer(void) {
         __CPROVER_assert(rb[j] == spec_der_int_vbyte(buf, I, j), "C03 der.parse_integer: scalar equals the encoded value if 0 <= value < n, and is zero for negative, oversize or >= n values");
         __CPROVER_assert(scalar_ok(&r), "C03 der.parse_integer: result scalar is reduced");
     }
-    __CPROVER_assert(PI_POST(ret, &r, p, (const unsigned char *)buf, I), "C03 der.parse_integer: the contract PI_POST used by der.sig_parse holds for the real function");
+    __CPROVER_assert(PI_POST(PEQ_PLAIN, ret, &r, p, (const unsigned char *)buf, avail, I), "C03 der.parse_integer: the contract PI_POST used by der.sig_parse holds for the real function");
     if (ret && I.inrange && I.total == 35 && buf[3] != 0) REACH("parse_integer accepts a padded 32-byte in-range value");
     if (ret && !I.inrange && I.total > 40) REACH("parse_integer accepts an oversize integer as zero");
     if (!ret && avail > 4 && buf[0] == 0x02 && buf[1] == 2) REACH("parse_integer rejects a padding violation");
-}
-
-/* API: every pointer argument NULL or an object with arbitrary content */
-void h_parse_der_full(void) {
-    secp256k1_context ctx;
-    INPUT(size_t, len); INPUT(secp256k1_ecdsa_signature, sig0); INPUT(_Bool, use_sig); INPUT(_Bool, use_in); INPUT(size_t, k); INPUT(size_t, j);
-    unsigned char *buf; int ret; spec_sig S; secp256k1_ecdsa_signature sig = sig0; secp256k1_scalar r, s; unsigned char rb[32], sb[32];
-    __CPROVER_assume(len <= MAXLEN && k < 64 && j < 32);
-    INPUT_BUF(b, buf, len, WIT);
-    verif_ctx_init(&ctx);
-    ret = secp256k1_ecdsa_signature_parse_der(&ctx, use_sig ? &sig : NULL, use_in ? buf : NULL, len);
-    WITNESS_BUF(b, buf, len, WIT);
-    S = spec_der_sig(buf, len);
-    __CPROVER_assert(ret == 0 || ret == 1, "C03 der.sig_parse: returns 0 or 1");
-    __CPROVER_assert(g_error == 0, "C03 der.sig_parse: error callback never invoked");
-    if (!use_sig || !use_in) {
-        __CPROVER_assert(ret == 0 && g_illegal == 1, "C03 der.sig_parse: NULL argument reports illegal use and fails");
-    } else {
-        __CPROVER_assert(g_illegal == 0, "C03 der.sig_parse: no callback for non-NULL arguments, whatever the bytes");
-        __CPROVER_assert(ret == S.ok, "C03 der.sig_parse: accepts exactly the strict-DER ECDSA-Sig-Value encodings that fill the input (no trailing bytes inside or after the sequence)");
-        secp256k1_ecdsa_signature_load(&ctx, &r, &s, &sig);
-        spec_scalar_be(&r, rb); spec_scalar_be(&s, sb);
-        if (ret && S.R.inrange && S.S.inrange) __CPROVER_assert(rb[j] == spec_der_sig_rbyte(buf, S, j) && sb[j] == spec_der_sig_sbyte(buf, S, j), "C03 der.sig_parse: in-range integers are stored exactly");
-        if (ret && !(S.R.inrange && S.S.inrange)) __CPROVER_assert(spec_is_zero32(rb) || spec_is_zero32(sb), "C03 der.sig_parse: an accepted signature with an out-of-range integer holds r = 0 or s = 0 (never verifies)");
-        if (!ret) __CPROVER_assert(sig.data[k] == 0, "C03 der.sig_parse: a rejected input leaves the signature object all zero");
-    }
-    if (use_sig && use_in && ret && S.R.inrange && S.S.inrange && len == 72) REACH("parse_der accepts a 72-byte signature");
-    if (use_sig && use_in && ret && !S.R.inrange && len > 200) REACH("parse_der accepts a long signature with oversize r");
-    if (use_sig && use_in && !ret && len > 8 && buf[0] == 0x30) REACH("parse_der rejects");
-    if (!use_sig) REACH("parse_der NULL sig");
 }
 
 /* API-level statement over the proved contract of secp256k1_der_parse_integer (der_contracts.h):
@@ -120,13 +89,13 @@ void h_parse_der(void) {
         __CPROVER_assert(g_illegal == 0, "C03 der.sig_parse: no callback for non-NULL arguments, whatever the bytes");
         __CPROVER_assert(g_pi_n <= 2, "C03 der.sig_parse: at most two INTEGER elements are read");
         if (framing) __CPROVER_assert(g_pi_n >= 1, "C03 der.sig_parse: a well-framed SEQUENCE has its first element read");
-        if (g_pi_n >= 1) __CPROVER_assert(framing && g_pi_p0 == buf + 1 + L.hdr && g_pi_av0 == L.val, "C03 der.sig_parse: r is read at the start of the SEQUENCE contents, limited to the SEQUENCE contents, and only if the framing is strict DER filling the input");
+        if (g_pi_n >= 1) __CPROVER_assert(framing && g_pi_off0 == 1 + L.hdr && g_pi_av0 == L.val, "C03 der.sig_parse: r is read at the start of the SEQUENCE contents, limited to the SEQUENCE contents, and only if the framing is strict DER filling the input");
         if (g_pi_n >= 1 && g_pi_I0.ok) __CPROVER_assert(g_pi_n == 2, "C03 der.sig_parse: after a well-formed r the second element is read");
-        if (g_pi_n == 2) __CPROVER_assert(g_pi_I0.ok && g_pi_p1 == g_pi_p0 + g_pi_I0.total && g_pi_av1 == g_pi_av0 - g_pi_I0.total, "C03 der.sig_parse: s is read directly after r, limited to the rest of the SEQUENCE contents");
+        if (g_pi_n == 2) __CPROVER_assert(g_pi_I0.ok && g_pi_off1 == g_pi_off0 + g_pi_I0.total && g_pi_av1 == g_pi_av0 - g_pi_I0.total, "C03 der.sig_parse: s is read directly after r, limited to the rest of the SEQUENCE contents");
         spec_ok = framing && g_pi_n == 2 && g_pi_I0.ok && g_pi_I1.ok && g_pi_I0.total + g_pi_I1.total == L.val;
         __CPROVER_assert(ret == spec_ok, "C03 der.sig_parse: accepts exactly the strict-DER ECDSA-Sig-Value encodings that fill the input (no trailing bytes inside or after the sequence)");
         secp256k1_ecdsa_signature_load(&ctx, &r, &s, &sig);
-        if (ret && g_pi_I0.inrange && g_pi_I1.inrange) __CPROVER_assert(spec_scalar_byte(&r, j) == spec_der_int_vbyte(g_pi_p0, g_pi_I0, j) && spec_scalar_byte(&s, j) == spec_der_int_vbyte(g_pi_p1, g_pi_I1, j), "C03 der.sig_parse: in-range integers are stored exactly");
+        if (ret) __CPROVER_assert(SC_EQ(r, g_pi_v0) && SC_EQ(s, g_pi_v1), "C03 der.sig_parse: the signature object holds exactly the scalars of the first and second INTEGER (in-range integers are stored exactly)");
         if (ret && !(g_pi_I0.inrange && g_pi_I1.inrange)) __CPROVER_assert(spec_scalar_is_zero(&r) || spec_scalar_is_zero(&s), "C03 der.sig_parse: an accepted signature with an out-of-range integer holds r = 0 or s = 0 (never verifies)");
         if (!ret) __CPROVER_assert(sig.data[k] == 0, "C03 der.sig_parse: a rejected input leaves the signature object all zero");
     }
@@ -187,22 +156,46 @@ void h_rt_ser_parse(void) {
     if (outlen == 8) REACH("roundtrip with 8 bytes");
 }
 
-/* serialize(parse(b)) = b whenever b is accepted and both integers are in range */
-void h_rt_parse_ser(void) {
-    secp256k1_context ctx;
-    INPUT(size_t, len); INPUT(size_t, k);
-    unsigned char *buf, out[72]; int ret, ret2; spec_sig S; secp256k1_ecdsa_signature sig; size_t outlen = 72;
-    __CPROVER_assume(len <= MAXLEN && k < 72);
+/* The obligations of h_parse_der, read with slot i := spec_der_int(buf + off_i, av_i), define spec_der_sig:
+ * checked here on the specification alone (no code under test). */
+void h_spec_compose(void) {
+    INPUT(size_t, len);
+    unsigned char *buf; spec_sig S; spec_len L; spec_int I0, I1; int framing, ok;
+    __CPROVER_assume(len <= MAXLEN);
     INPUT_BUF(b, buf, len, WIT);
-    verif_ctx_init(&ctx);
-    ret = secp256k1_ecdsa_signature_parse_der(&ctx, &sig, buf, len);
-    WITNESS_BUF(b, buf, len, WIT);
     S = spec_der_sig(buf, len);
-    if (ret && S.R.inrange && S.S.inrange) {
-        ret2 = secp256k1_ecdsa_signature_serialize_der(&ctx, out, &outlen, &sig);
-        __CPROVER_assert(ret2 == 1 && outlen == len, "C03 der.roundtrip: re-serialization has the length of the accepted input");
-        if (k < len) __CPROVER_assert(out[k] == buf[k], "C03 der.roundtrip: serialize(parse(b)) = b (the accepted encoding is the canonical one)");
-        if (len == 72) REACH("parse/serialize roundtrip of 72 bytes");
-        if (len == 8) REACH("parse/serialize roundtrip of 8 bytes");
+    WITNESS_BUF(b, buf, len, WIT);
+    L.ok = 0; L.hdr = 0; L.val = 0; I0.ok = 0; I0.total = 0; I0.inrange = 0; I1 = I0;
+    if (len >= 1) L = spec_der_len(buf + 1, len - 1);
+    framing = len >= 1 && buf[0] == 0x30 && L.ok && L.val == len - 1 - L.hdr;
+    if (framing) I0 = spec_der_int(buf + 1 + L.hdr, L.val);
+    if (framing && I0.ok) I1 = spec_der_int(buf + 1 + L.hdr + I0.total, L.val - I0.total);
+    ok = framing && I0.ok && I1.ok && I0.total + I1.total == L.val;
+    __CPROVER_assert(S.ok == ok, "C03 der.spec_compose: spec_der_sig accepts iff strict framing, two well-formed INTEGER elements, nothing after them");
+    if (ok) __CPROVER_assert(S.roff == 1 + L.hdr && S.soff == S.roff + I0.total && S.R.inrange == I0.inrange && S.S.inrange == I1.inrange && S.R.moff == I0.moff && S.R.ml == I0.ml && S.S.moff == I1.moff && S.S.ml == I1.ml,
+                             "C03 der.spec_compose: r and s of spec_der_sig are the first and second INTEGER");
+    if (ok && len > 200) REACH("spec accepts a long signature");
+    if (!ok && framing && I0.ok && I1.ok) REACH("spec rejects trailing bytes inside");
+}
+
+/* X.690 lemma on the specification alone: a DER INTEGER element that is accepted with 0 <= value < n is THE
+ * encoding of its value (identifier 02, short length = minimal content length, contents = minimal two's
+ * complement).  Together with der.sig_parse (stored scalars = values), der.serialize (output = encoding of
+ * the stored scalars) and der.spec_compose this gives serialize(parse(b)) = b for every accepted b with both
+ * integers in range: b = 30 len || enc(r) || enc(s) with nothing else (framing), and len < 128 is forced. */
+void h_canon_int(void) {
+    INPUT(size_t, avail); INPUT(size_t, k);
+    unsigned char *buf, v[32]; spec_int I; size_t i;
+    __CPROVER_assume(avail <= MAXLEN);
+    INPUT_BUF(b, buf, avail, WIT);
+    I = spec_der_int(buf, avail);
+    WITNESS_BUF(b, buf, avail, WIT);
+    if (I.ok && I.inrange) {
+        for (i = 0; i < 32; i++) v[i] = spec_der_int_vbyte(buf, I, i);
+        __CPROVER_assert(I.total == 2 + spec_der_int_clen(v) && I.total <= 35, "C03 der.canonical: an in-range INTEGER element has the minimal length of its value");
+        __CPROVER_assert(buf[0] == 0x02 && buf[1] == spec_der_int_clen(v), "C03 der.canonical: identifier and short-form length octet are those of the canonical encoding");
+        if (k < spec_der_int_clen(v)) __CPROVER_assert(buf[2 + k] == spec_der_int_cbyte(v, k), "C03 der.canonical: content octets are the minimal two's complement of the value");
+        if (I.total == 35) REACH("canonical 33-content-byte integer");
+        if (I.total == 3) REACH("canonical single-byte integer");
     }
 }
